@@ -103,6 +103,7 @@ func c10GeneratorsOnly(thorough bool, only int, inWorker bool) []c10Gen {
 			return genValid([]*wgen.Family{ss().f1, wgen.F2(2, false)}, append(append([]wgen.Micro{}, wgen.Micros...), ss().corp...))
 		})
 	}
+	add(func() c10Gen { g := genPrefixTailEdits(ss().small); g.Light = true; return g })
 	add(func() c10Gen { g := genC11Programs(thorough, inWorker); g.Light = !thorough; return g })
 	add(func() c10Gen { return genFeatures(thorough) })
 	add(func() c10Gen { g := genConstructs(thorough); g.Light = !thorough; return g })
